@@ -23,6 +23,7 @@ import (
 func (l *listener6) HandleMsg6(buf []byte, oob *ipv6.ControlMessage, peer *net.UDPAddr) {
 	d, err := dhcpv6.FromBytes(buf)
 	bufpool.Put(&buf)
+	verifBufPut(buf)
 	if err != nil {
 		log.Printf("Error parsing DHCPv6 request: %v", err)
 		return
@@ -94,6 +95,9 @@ func (l *listener6) HandleMsg6(buf []byte, oob *ipv6.ControlMessage, peer *net.U
 			log.Errorf("HandleMsg6: Did not receive interface information")
 		}
 	}
+	if verifSend6(l, d, resp, peer, woob) {
+		return
+	}
 	if _, err := l.WriteTo(resp.ToBytes(), woob, peer); err != nil {
 		log.Printf("MainHandler6: conn.Write to %v failed: %v", peer, err)
 	}
@@ -108,6 +112,7 @@ func (l *listener4) HandleMsg4(buf []byte, oob *ipv4.ControlMessage, _peer net.A
 
 	req, err := dhcpv4.FromBytes(buf)
 	bufpool.Put(&buf)
+	verifBufPut(buf)
 	if err != nil {
 		log.Printf("Error parsing DHCPv4 request: %v", err)
 		return
@@ -173,6 +178,9 @@ func (l *listener4) HandleMsg4(buf []byte, oob *ipv4.ControlMessage, _peer net.A
 			}
 		}
 
+		if verifSend4(l, req, resp, peer, woob, useEthernet) {
+			return
+		}
 		if useEthernet {
 			intf, err := net.InterfaceByIndex(woob.IfIndex)
 			if err != nil {
